@@ -18,7 +18,7 @@ from symx.containers import SymStr, SymDict, SymSet
 from symx.shims import numpy_shim as np
 from symx.shims import scipy_shim as sp
 from harness.cls_ngram import docs_of
-from harness import cls_cooc_family
+from harness import cls_cooc_family, C15_tree
 
 MASK = -7
 
@@ -288,6 +288,8 @@ def cases(tier):
         cs.append(Case("history[%s,%s]" % (kind, shapes), h_history, dict(kind=kind, shapes=shapes), replay="C13:replay_history",
                        bounds={"estimator": kind, "shapes (fit, transform 1, transform 2)": shapes, "tokens / characters / labels": "unconstrained integers"},
                        functions=["<estimator>.fit", "<estimator>.transform", "preprocessing.preprocess_*"], shards=8 if n >= 6 else 1, shard_depth=8))
+    # labelled trees with LIL / CSR adjacency input: fit and transform must not edit the caller's matrices
+    cs += [c for c in C15_tree.cases(tier) if ",lil" in c.name or ("prune=1" in c.name and "after" in c.name)]
     for k, f, nr, nc, u, z in M:
         cs.append(Case("matrix_transformer[%s,%s,%dx%d,%s,%s]" % (k, f, nr, nc, "unsorted" if u else "sorted", "explicit-zeros" if z else "positive"),
                        h_matrix_transformer, dict(kind=k, fmt=f, nr=nr, nc=nc, unsorted=u, explicit_zero=z), replay="C13:replay_matrix",
